@@ -9,6 +9,7 @@ import (
 	"time"
 
 	xformat "github.com/goplus/xgo/x/format"
+	"verifharness/compcx"
 	"verifharness/xrun"
 )
 
@@ -53,7 +54,7 @@ func main() {
 		}
 		files = conv
 	}
-	out, err := xrun.CompileDir(files, false)
+	out, err := compcx.CompileDir(files)
 	if err != nil {
 		fmt.Println("COMPILE ERR:", err)
 		return
